@@ -877,7 +877,9 @@
           ((null? (cdr sre))
            #f)
           ((char-set-sre? sre)
-           (make-char-state (sre->char-set sre) flags next (next-id)))
+           ;; as for the other char-set forms: the flags (w/nocase,
+           ;; w/ascii) apply to the terminals of the set, not to the union
+           (make-char-state (sre->char-set sre flags) ~none next (next-id)))
           ((null? (cddr sre))
            (->rx (cadr sre) flags next))
           (else
